@@ -226,7 +226,7 @@ PROPS["C04"] = {
     "level_note": _ARCH_NOTE,
 }
 PROPS["C11"] = {
-    "theorems": ["C11_decode_encode_dict", "C11_compress_conforming", "C11_header_layout", "C11_archive_is_header_then_chunks",
+    "theorems": ["C11_decode_encode_dict", "C11_compress_conforming", "C11_header_layout", "C11_archive_is_header_then_chunks", "C11_archive_file_starts_empty",
                  "C11_reader_reports_writer"],
     "suites": ["protoenc", "compress", "clirt"], "needs_cli": True,
     "rule": "cases: random dictionaries through prost's encoder vs the model encoder (byte exact); library and CLI writers on "
@@ -297,8 +297,8 @@ SECTIONS_OF = {
     "C05": ["clonesteps"], "C06": ["clonesteps"],
     "C04": _ARCH + ["pincheck"], "C07": [], "C08": [],
     "C09": _CHUNK, "C10": _CHUNK,
-    "C11": _CHUNK + _ARCH + ["versions", "compresssteps"],
-    "C12": _CHUNK + _ARCH + ["versions", "pipeline", "compresssteps"],
+    "C11": _CHUNK + _ARCH + ["versions", "compresssteps", "cloneflags"],
+    "C12": _CHUNK + _ARCH + ["versions", "pipeline", "compresssteps", "cloneflags"],
     "C14": ["cloneflags", "clonesteps", "compresssteps", "pincheck"],
     "C16": ["cloneflags", "clonesteps", "compresssteps"],
     "C15": _CHUNK + _ARCH, "C17": _ARCH,
